@@ -71,6 +71,8 @@ func init() {
 			add(fmt.Sprintf("v%d.SetByIndex(%s)", i, []string{"0", "len", "len+2"}[k]), 'x', i, 0, k)
 		}
 		add(fmt.Sprintf("v%d.SetByIndex(len+2); v%d.GetByIndex(len).SetAsInteger(fresh)", i, i), 'g', i, 0, 0)
+		add(fmt.Sprintf("v%d.Assign(v%d)", i, i), 's', i, i, 0)
+		add(fmt.Sprintf("v%d.SetByIndex(0, equal value in a new object); v%d.GetByIndex(0).SetAsInteger(fresh)", i, i), 'e', i, 0, 0)
 		add(fmt.Sprintf("v%d.SetLength(len+2)", i), 'l', i, 0, 2)
 		add(fmt.Sprintf("v%d.SetLength(0)", i), 'l', i, 0, 0)
 		add(fmt.Sprintf("v%d.Clear()", i), 'z', i, 0, 0)
@@ -79,6 +81,7 @@ func init() {
 	for l := 0; l < 2; l++ {
 		add(fmt.Sprintf("L%d[0]=fresh", l), 'm', 0, 0, l)
 		add(fmt.Sprintf("L%d=append(L%d,fresh)", l, l), 'p', 0, 0, l)
+		add(fmt.Sprintf("L%d=append(L%d,NaN)", l, l), 'q', 0, 0, l)
 	}
 }
 
@@ -388,12 +391,34 @@ func c20Run(c *mon.Case, ops string) {
 				v, r := s.freshElem()
 				s.lists[op.arg] = append(s.lists[op.arg], r)
 				s.lmod[op.arg] = append(s.lmod[op.arg], v)
+			case 'q':
+				v := vDouble(math.NaN())
+				s.lists[op.arg] = append(s.lists[op.arg], v.Variant())
+				s.lmod[op.arg] = append(s.lmod[op.arg], v)
+			case 'e':
+				// the slot is overwritten with a new object that holds an equal value; the array must now hold THAT
+				// object: changing it in place shows in this array and in no other variant
+				if s.real[i] == nil || s.model[i].val.T != "A" || s.model[i].tainted || len(s.model[i].val.E) == 0 || s.model[i].val.E[0].T == "A" {
+					skip = true
+					return
+				}
+				r := s.model[i].val.E[0].Variant()
+				s.real[i].SetByIndex(0, r)
+				if s.real[i].GetByIndex(0) != r {
+					panic("GetByIndex does not return the element object written by SetByIndex")
+				}
+				s.fresh++
+				r.SetAsInteger(3000 + s.fresh)
+				s.model[i].val.E = append([]Val{}, s.model[i].val.E...)
+				s.model[i].val.E[0] = vInt(3000 + s.fresh)
 			}
 		})
 		trace = append(trace, op.name)
 		if p != nil {
 			if msg, ok := p.Val.(string); ok && strings.HasPrefix(msg, "clone does not equal") {
 				c.Failf("a clone does not equal its original", "after [%s]: %s", strings.Join(trace, "; "), msg)
+			} else if msg, ok := p.Val.(string); ok && strings.HasPrefix(msg, "GetByIndex does not return") {
+				c.Failf("array variant does not hold its own copy of the list (or index writes misbehave)", "after [%s]: %s", strings.Join(trace, "; "), msg)
 			} else {
 				c.FailPanic(op.name[strings.Index(op.name, ".")+1:], p)
 			}
@@ -461,7 +486,7 @@ func buildC20(cfg *mon.Config) []*mon.Sub {
 	depth := cfg.N(4, 5)
 	exh := &mon.Sub{
 		Name:          "operation-sequences-exhaustive",
-		Rule:          fmt.Sprintf("every sequence of %d operations over %d concrete operations on three live variants and two caller-side lists (construct from 8 host values, SetAsArray/VariantFromArray from a caller list, Assign, Clone, NewVariant(variant), SetByIndex at 0/len/len+2, SetLength, Clear, SetAsInteger, caller-side list element replacement and append); after every step all live variants are read back (type, accessor, Length, elements, IsNull, IsEmpty) and compared with the value model, Equals is evaluated on all pairs (total, symmetric, equal to model equality), a clone must equal its original; non-trivial = the sequence built an array", depth, len(c20Ops)),
+		Rule:          fmt.Sprintf("every sequence of %d operations over %d concrete operations on three live variants and two caller-side lists (construct from 8 host values, SetAsArray/VariantFromArray from a caller list, Assign (also of a variant to itself), Clone, NewVariant(variant), SetByIndex at 0/len/len+2, SetByIndex(0) with an equal value in a new object followed by an in-place change of that object, SetLength, Clear, SetAsInteger, caller-side list element replacement and append (fresh integers and NaN); after every step all live variants are read back (type, accessor, Length, elements, IsNull, IsEmpty) and compared with the value model, Equals is evaluated on all pairs (total, symmetric, equal to model equality), a clone must equal its original; non-trivial = the sequence built an array", depth, len(c20Ops)),
 		Exhaustive:    true,
 		DistinctByGen: true,
 		Floor:         1000,
